@@ -2,107 +2,46 @@
   C09 — flattening yields a connected polyline from start to end within the tolerance.
 
   All statements are about the model of `Model/Geom/Flatten.lean` — the same `def`s the
-  correspondence check runs at `Float32`/`Float` against lyon on every run.
+  correspondence check runs at `Float32`/`Float` against lyon on every run — which mirrors the code
+  as repaired by the `fix:` commits e20d2048, 6805acc4, 99a81005, d50cea5f, 3251fd3d, 014eb9a5.
+  Helper lemmas (loop invariants) are in `Lemmas/Flatten.lean`.
 
   * Structure (`…_connected`, `…_ranges`, `…_vertices_on_curve`): the quadratic and arc statements
     hold for EVERY scalar type (`Float32` included: they only move values around), for every
-    curve, tolerance and segment count / fuel; the cubic ones are over an arbitrary ordered field
-    (they use `sample 0 = from`, `sample 1 = to`).
-  * Parameters: `inv_integral_strict_mono`, `tAt_strict_mono`, `tAt_zero`, `tAt_count`:
-    0 = t₀ < t₁ < … < t_count = 1 in exact arithmetic (`sqrt` is a parameter, its two laws are
-    hypotheses).
-  * Certificates: `chord_deviation`, `cubic_quad_deviation` (exact identities).
-  * The tolerance clause itself is NOT a theorem: it is false of model and code.
-    `is_linear_unsound_witness` is a concrete curve on which `is_linear` holds, one segment is
-    emitted, and the curve is 4999 tolerances away from it; `is_linear_sound_partial` is the part
-    that is true (control point projecting into the baseline). Levien's count being only
-    asymptotically right (sharp turns), the 0.4+0.8 tolerance split of cubics and the radius drift
-    of elliptic arcs are oracle findings (see findings.d/C09.json), not theorems.
-  * `cubic_iter_point_is_sample` / `cubic_iter_last_point_partial`: the cubic iterator's points
-    are always `curve.sample(range_start + t·range_step)`, never the stored end point; the last
-    one equals `to` in exact arithmetic only.
+    curve, tolerance and segment count / fuel; the cubic callback ones are over an arbitrary
+    ordered field (they use `sample 0 = from`, `sample 1 = to`).
+  * Iterators end exactly at the end point, for every scalar type: `quad_iter_final`,
+    `cubic_iter_last_point`, `arc_iter_last_point` (full strength since e20d2048 / 6805acc4).
+  * Parameters: `inv_integral_strict_mono`, `tAt_strict_mono`, `general_signs`, `tAt_zero`,
+    `tAt_count`: 0 = t₀ < t₁ < … < t_count = 1 in exact arithmetic (`sqrt` is a parameter).
+  * Tolerance clause:
+      - `is_linear_sound`: whenever the repaired `is_linear` accepts, EVERY point of the curve is
+        within the tolerance of the single emitted segment (hull argument). Full strength.
+      - `quad_flat_within_tolerance_of_params`: every emitted chord whose parameter step Δ
+        satisfies Δ⁴·|P0−2P1+P2|² ≤ 16·tol² keeps the curve within the tolerance (exact
+        chord-deviation identity). NAMED GAP: that the steps produced by Levien's integral
+        estimate satisfy this bound is not proved (it holds only approximately: oracle finding
+        `approx-integral`).
+      - `collinear_overshoot_witness` (residual defect, narrow): control points exactly collinear
+        (`cross = 0`, e.g. `from == to`) with the control point outside the baseline: the code's
+        parameters are NaN, the count falls back to 0, one segment is emitted and the curve is
+        thousands of tolerances away. `collinear_overshoot_partial` is what is true there.
+  * `chord_deviation`, `cubic_quad_deviation` with their extremal factors: exact identities.
 -/
 import LyonVerif.Model.Geom.Flatten
 import LyonVerif.Lemmas.Field
+import LyonVerif.Lemmas.Flatten
 
 set_option linter.unusedSectionVars false
 set_option linter.unusedVariables false
 
-geom_all Lyon.Seg
-geom_all Lyon.Quad
-geom_all Lyon.Cubic
-geom_all Lyon.Arc
-
 namespace Lyon.C09
-open Lyon Scalar
-
-/-! ## Polyline predicates -/
-
-section defs
-variable {α : Type}
-
-/-- the segments form a chain starting at point `p` and parameter `t`: every `from` is the
-previous `to` (the first one is `p`), every range starts where the previous one ended
-(the first one at `t`). -/
-def Chain (p : P α) (t : α) : List (FlatSeg α) → Prop
-  | [] => True
-  | s :: r => s.a = p ∧ s.t0 = t ∧ Chain s.b s.t1 r
-
-/-- end point of the last segment (`p` for the empty list) -/
-def lastPt (p : P α) : List (FlatSeg α) → P α
-  | [] => p
-  | s :: r => lastPt s.b r
-
-/-- end parameter of the last segment (`t` for the empty list) -/
-def lastT (t : α) : List (FlatSeg α) → α
-  | [] => t
-  | s :: r => lastT s.t1 r
-
-/-- every segment but the last ends at `f` of its end parameter -/
-def InteriorOn (f : α → P α) : List (FlatSeg α) → Prop
-  | [] => True
-  | [_] => True
-  | s :: r => s.b = f s.t1 ∧ InteriorOn f r
-
-theorem chain_append {p : P α} {t : α} {l r : List (FlatSeg α)} (hl : Chain p t l)
-    (hr : Chain (lastPt p l) (lastT t l) r) : Chain p t (l ++ r) := by
-  induction l generalizing p t with
-  | nil => simpa [lastPt, lastT] using hr
-  | cons s l ih => exact ⟨hl.1, hl.2.1, ih hl.2.2 hr⟩
-
-theorem lastPt_append (p : P α) (l r : List (FlatSeg α)) : lastPt p (l ++ r) = lastPt (lastPt p l) r := by
-  induction l generalizing p with
-  | nil => rfl
-  | cons s l ih => exact ih s.b
-
-theorem lastT_append (t : α) (l r : List (FlatSeg α)) : lastT t (l ++ r) = lastT (lastT t l) r := by
-  induction l generalizing t with
-  | nil => rfl
-  | cons s l ih => exact ih s.t1
-end defs
+open Lyon Scalar Lyon.Flat
 
 /-! ## Quadratic Bézier: structure, for every scalar type -/
 
 section quad_any
 variable {α : Type} [Scalar α] [Transc α] [FlatConst α]
-
-/-- the loop of `for_each_flattened_with_t`, any number of iterations, any state -/
-theorem quad_loop_structure (q : Quad α) (p : FlatParams α) (n : Nat) (i : α) (frm : P α) (tFrom : α) :
-    Chain frm tFrom (q.flatLoop p n i frm tFrom)
-    ∧ lastPt frm (q.flatLoop p n i frm tFrom) = q.b
-    ∧ lastT tFrom (q.flatLoop p n i frm tFrom) = one
-    ∧ InteriorOn q.sample (q.flatLoop p n i frm tFrom)
-    ∧ (q.flatLoop p n i frm tFrom).length = n + 1 := by
-  induction n generalizing i frm tFrom with
-  | zero => simp [Quad.flatLoop, Chain, lastPt, lastT, InteriorOn]
-  | succ n ih =>
-    obtain ⟨h1, h2, h3, h4, h5⟩ := ih (i + one) (q.sample (p.tAt i)) (p.tAt i)
-    refine ⟨⟨rfl, rfl, h1⟩, h2, h3, ?_, by simp [Quad.flatLoop, h5]⟩
-    cases hl : q.flatLoop p n (i + one) (q.sample (p.tAt i)) (p.tAt i) with
-    | nil => simp [hl] at h5
-    | cons s r =>
-      simp only [Quad.flatLoop, hl]
-      exact ⟨rfl, by simpa [hl] using h4⟩
 
 /-- **flat_connected (quadratic)**: whatever the tolerance and the count, the emitted segments
 start exactly at `from`, each begins where the previous one ended, and the last one ends exactly
@@ -110,30 +49,20 @@ at `to`. Holds for every scalar type. -/
 theorem quad_flat_connected (q : Quad α) (tol : α) (l : List (FlatSeg α))
     (h : q.forEachFlattenedWithT tol = some l) :
     l ≠ [] ∧ Chain q.a zero l ∧ lastPt q.a l = q.b := by
-  simp only [Quad.forEachFlattenedWithT, Option.map_eq_some_iff] at h
-  obtain ⟨c, _, rfl⟩ := h
-  obtain ⟨h1, h2, _, _, h5⟩ := quad_loop_structure q (FlatParams.new q tol) (c - 1) one q.a zero
-  refine ⟨?_, h1, h2⟩
-  intro hn
-  rw [Quad.flatWith] at hn
-  rw [hn] at h5
-  simp at h5
+  obtain ⟨h1, h2, h3, _, _⟩ := quad_flat_structure q tol l h
+  exact ⟨h1, h2, h3⟩
 
 /-- **flat_ranges (quadratic)**: the ranges start at 0, abut, and end at exactly 1. -/
 theorem quad_flat_ranges (q : Quad α) (tol : α) (l : List (FlatSeg α))
     (h : q.forEachFlattenedWithT tol = some l) :
     Chain q.a zero l ∧ lastT zero l = one := by
-  simp only [Quad.forEachFlattenedWithT, Option.map_eq_some_iff] at h
-  obtain ⟨c, _, rfl⟩ := h
-  obtain ⟨h1, _, h3, _, _⟩ := quad_loop_structure q (FlatParams.new q tol) (c - 1) one q.a zero
-  exact ⟨h1, h3⟩
+  obtain ⟨_, h2, _, h4, _⟩ := quad_flat_structure q tol l h
+  exact ⟨h2, h4⟩
 
 /-- **flat_vertices_on_curve (quadratic)**: every interior vertex is `sample` of its parameter. -/
 theorem quad_flat_vertices_on_curve (q : Quad α) (tol : α) (l : List (FlatSeg α))
-    (h : q.forEachFlattenedWithT tol = some l) : InteriorOn q.sample l := by
-  simp only [Quad.forEachFlattenedWithT, Option.map_eq_some_iff] at h
-  obtain ⟨c, _, rfl⟩ := h
-  exact (quad_loop_structure q (FlatParams.new q tol) (c - 1) one q.a zero).2.2.2.1
+    (h : q.forEachFlattenedWithT tol = some l) : InteriorOn q.sample l :=
+  (quad_flat_structure q tol l h).2.2.2.2
 
 /-- the number of segments is `max(count, 1)` -/
 theorem quad_flat_count (q : Quad α) (p : FlatParams α) (c : Nat) :
@@ -157,28 +86,35 @@ theorem quad_iter_step (s : QuadIter α) (hd : s.done = false) (he : s.atEnd = f
     s.next.1 = some (s.curve.sample (s.params.tAt s.i)) := by
   simp [QuadIter.next, hd, he]
 
+/-- **cubic_iter_last_point** (every scalar type; repair e20d2048): when the last sub-curve's
+parameter iterator yields its final `1`, the cubic iterator yields the stored end point `to`
+itself — on the path where the sub-curve was already running … -/
+theorem cubic_iter_last_point (s : CubicIter α) (t : α) (cur : QuadTIter α)
+    (h : s.current.next = (some t, cur)) (hr : s.remaining = 0) (ht : (t == one) = true) :
+    s.next.1 = some s.curve.b := by
+  simp [CubicIter.next, h, CubicIter.lastOr, hr, ht]
+
+/-- … and on the path where `next` has just started the last sub-curve (`remaining = 1` before
+the call) and that sub-curve consists of the single parameter `1`. -/
+theorem cubic_iter_last_point_advance (s : CubicIter α) (cur : QuadTIter α)
+    (h : s.current.next = (none, cur)) (hr : s.remaining = 1)
+    (ht : ((((QuadTIter.new ((s.curve.splitRange (s.rangeStart + s.rangeStep)
+        (s.rangeStart + s.rangeStep + s.rangeStep)).toQuadratic) s.tolerance).next.1).getD one) == one) = true) :
+    s.next.1 = some s.curve.b := by
+  simp [CubicIter.next, h, hr, CubicIter.advance, CubicIter.lastOr, ht]
+
+/-- every other point of the cubic iterator is `curve.sample(range_start + t·range_step)` -/
+theorem cubic_iter_point_is_sample (s : CubicIter α) (t : α) (cur : QuadTIter α)
+    (h : s.current.next = (some t, cur)) (hn : ¬ (s.remaining = 0 ∧ (t == one) = true)) :
+    s.next.1 = some (s.curve.sample (s.rangeStart + t * s.rangeStep)) := by
+  simp only [CubicIter.next, h, CubicIter.lastOr, if_neg hn]
+
 end quad_any
 
 /-! ## Arc: structure, for every scalar type and every fuel -/
 
 section arc_any
 variable {α : Type} [Scalar α] [Transc α] [FlatConst α]
-
-theorem arc_loop_structure (a : Arc α) (tol : α) (f : Nat) (iter : Arc α) (t0 : α) (frm : P α) :
-    Chain frm t0 (a.flatLoop tol f iter t0 frm)
-    ∧ lastPt frm (a.flatLoop tol f iter t0 frm) = a.toPt
-    ∧ lastT t0 (a.flatLoop tol f iter t0 frm) = one
-    ∧ a.flatLoop tol f iter t0 frm ≠ [] := by
-  induction f generalizing iter t0 frm with
-  | zero => simp [Arc.flatLoop, Chain, lastPt, lastT]
-  | succ f ih =>
-    unfold Arc.flatLoop
-    by_cases hs : one ≤ iter.flatteningStep tol
-    · simp [hs, Chain, lastPt, lastT]
-    · simp only [hs, if_false]
-      obtain ⟨h1, h2, h3, _⟩ := ih (iter.afterSplit (iter.flatteningStep tol))
-        (t0 + iter.flatteningStep tol * (one - t0)) (iter.afterSplit (iter.flatteningStep tol)).fromPt
-      exact ⟨⟨rfl, rfl, h1⟩, h2, h3, by simp⟩
 
 /-- **flat_connected / flat_ranges (arc)**: starts at `from()`, chained, ends at `to()` with
 parameter exactly 1 — for every tolerance and however long the loop runs. -/
@@ -190,26 +126,24 @@ theorem arc_flat_connected (a : Arc α) (tol : α) (fuel : Nat) :
   obtain ⟨h1, h2, h3, h4⟩ := arc_loop_structure a tol fuel a zero a.fromPt
   exact ⟨h4, h1, h2, h3⟩
 
-/-- the arc iterator's final point is the REMAINING arc's `to()` (not the original's): equal in
-exact arithmetic (`arc_iter_last_point_partial`), a rounding-size distance off in floats. -/
-theorem arc_iter_final (s : ArcIter α) (hd : s.done = false) (he : one ≤ s.arc.flatteningStep s.tolerance) :
-    s.next.1 = some s.arc.toPt := by
-  simp [ArcIter.next, ArcIter.step, hd, he]
+/-- **arc_iter_last_point** (every scalar type; repair 6805acc4): after any number of `next`
+calls the iterator still holds the ORIGINAL arc's `to()`, and that is the point it yields when
+its guard `step ≥ 1` fires. -/
+theorem arc_iter_last_point (a : Arc α) (tol : α) (n : Nat) :
+    (arcIterRun n (ArcIter.new a tol)).to = a.toPt
+    ∧ ((arcIterRun n (ArcIter.new a tol)).done = false →
+        one ≤ (arcIterRun n (ArcIter.new a tol)).arc.flatteningStep (arcIterRun n (ArcIter.new a tol)).tolerance →
+        (arcIterRun n (ArcIter.new a tol)).next.1 = some a.toPt) := by
+  have hto : (arcIterRun n (ArcIter.new a tol)).to = a.toPt := by
+    rw [arc_iter_run_to]; rfl
+  refine ⟨hto, fun hd he => ?_⟩
+  simp [ArcIter.next, ArcIter.step, hd, he, hto]
 
 end arc_any
 
 /-! ## Ordered-field statements -/
 
 variable {K : Type} [Field K] [LinearOrder K] [IsStrictOrderedRing K]
-
-theorem quad_sample_zero (q : Quad K) : q.sample 0 = q.a := by
-  cases q with | mk a c b => cases a; cases c; cases b; geom_ring
-theorem quad_sample_one (q : Quad K) : q.sample 1 = q.b := by
-  cases q with | mk a c b => cases a; cases c; cases b; geom_ring
-theorem cubic_sample_zero (c : Cubic K) : c.sample 0 = c.a := by
-  cases c with | mk a c1 c2 b => cases a; cases c1; cases c2; cases b; geom_ring
-theorem cubic_sample_one (c : Cubic K) : c.sample 1 = c.b := by
-  cases c with | mk a c1 c2 b => cases a; cases c1; cases c2; cases b; geom_ring
 
 /-! ### Deviation certificates -/
 
@@ -222,8 +156,7 @@ theorem chord_deviation (q : Quad K) (t0 d s : K) :
   geom_ring
 
 /-- `s(1−s) ≤ 1/4`: the factor of `chord_deviation` is maximal at the middle of the chord -/
-theorem chord_deviation_factor (s : K) : s * (1 - s) ≤ 1 / 4 := by
-  nlinarith [sq_nonneg (s - 1 / 2)]
+theorem chord_deviation_factor (s : K) : s * (1 - s) ≤ 1 / 4 := chord_factor s
 
 /-- **cubic_quad_deviation**: a cubic differs from its `to_quadratic` approximation, at the same
 parameter, by exactly `½·t(1−t)(1−2t)·(P3 − 3P2 + 3P1 − P0)`. -/
@@ -246,108 +179,10 @@ theorem cubic_quad_deviation_factor (t : K) (h0 : 0 ≤ t) (h1 : t ≤ 1) :
 
 example : (0:ℚ) ≤ 1/3 ∧ (1/3:ℚ) ≤ 1 := by norm_num
 
-/-! ### Cubic: structure -/
+/-! ### Cubic and arc: structure -/
 
 section cubic
 variable [Transc K] [FlatConst K]
-
-theorem one_beq_one : ((one : K) == one) = true := (sc_beq _ _).mpr rfl
-
-/-- each quadratic of `for_each_quadratic_bezier_with_t` goes from `sample t0` to `sample t1`;
-consecutive ones share parameter and point; the last one ends at parameter 1 -/
-def QuadChain (c : Cubic K) : K → List (Quad K × K × K) → Prop
-  | _, [] => True
-  | t, (q, t0, t1) :: r => t0 = t ∧ q.a = c.sample t0 ∧ q.b = c.sample t1 ∧ QuadChain c t1 r
-
-def lastR1 : K → List (Quad K × K × K) → K
-  | t, [] => t
-  | _, (_, _, t1) :: r => lastR1 t1 r
-
-theorem cubic_quads_structure (c : Cubic K) (step : K) (n : Nat) (t0 : K) :
-    QuadChain c t0 (c.quadsLoop step n t0) ∧ lastR1 t0 (c.quadsLoop step n t0) = one
-    ∧ (c.quadsLoop step n t0).length = n + 1 := by
-  induction n generalizing t0 with
-  | zero =>
-    refine ⟨⟨rfl, ?_, ?_, trivial⟩, rfl, rfl⟩ <;> simp [Cubic.splitRange, Cubic.toQuadratic]
-  | succ n ih =>
-    obtain ⟨h1, h2, h3⟩ := ih (t0 + step)
-    refine ⟨⟨rfl, ?_, ?_, h1⟩, h2, by simp [Cubic.quadsLoop, h3]⟩ <;>
-      simp [Cubic.splitRange, Cubic.toQuadratic]
-
-/-- `rerange` keeps the points, threads the parameters, and (for the last quadratic, whose own
-last range ends at 1) ends at exactly 1 -/
-theorem rerange_structure (r0 len : K) (lastQuad : Bool) (l : List (FlatSeg K)) (p : P K) (t tFrom : K)
-    (hc : Chain p t l) :
-    Chain p tFrom (Cubic.rerange r0 len lastQuad l tFrom).1
-    ∧ lastPt p (Cubic.rerange r0 len lastQuad l tFrom).1 = lastPt p l
-    ∧ lastT tFrom (Cubic.rerange r0 len lastQuad l tFrom).1 = (Cubic.rerange r0 len lastQuad l tFrom).2
-    ∧ ((Cubic.rerange r0 len lastQuad l tFrom).1 = [] ↔ l = [])
-    ∧ (lastQuad = true → l ≠ [] → lastT t l = one → (Cubic.rerange r0 len lastQuad l tFrom).2 = one) := by
-  induction l generalizing p t tFrom with
-  | nil => simp [Cubic.rerange, Chain, lastPt, lastT]
-  | cons s l ih =>
-    obtain ⟨ha, ht, hrest⟩ := hc
-    set tn := (if (lastQuad && (s.t1 == one)) = true then one else s.t1 * len + r0) with htn
-    obtain ⟨h1, h2, h3, h4, h5⟩ := ih s.b s.t1 tn hrest
-    refine ⟨⟨ha, rfl, h1⟩, h2, h3, by simp [Cubic.rerange], ?_⟩
-    intro hq _ hlast
-    cases l with
-    | nil =>
-      simp only [lastT] at hlast
-      simp [Cubic.rerange, hq, hlast, one_beq_one]
-    | cons s' l' =>
-      exact h5 hq (by simp) hlast
-
-theorem flatQuadsT_cons (tol : K) (q : Quad K) (r0 r1 : K) (rest : List (Quad K × K × K)) (tFrom : K)
-    (l : List (FlatSeg K)) (h : Cubic.flatQuadsT tol ((q, r0, r1) :: rest) tFrom = some l) :
-    ∃ lq lr, q.forEachFlattenedWithT tol = some lq
-      ∧ Cubic.flatQuadsT tol rest (Cubic.rerange r0 (r1 - r0) (r1 == one) lq tFrom).2 = some lr
-      ∧ l = (Cubic.rerange r0 (r1 - r0) (r1 == one) lq tFrom).1 ++ lr := by
-  unfold Cubic.flatQuadsT at h
-  split at h
-  · cases h
-  · rename_i lq hq
-    cases hr : Cubic.flatQuadsT tol rest (Cubic.rerange r0 (r1 - r0) (r1 == one) lq tFrom).2 with
-    | none => simp only [hr] at h; cases h
-    | some lr =>
-      simp only [hr, Option.some.injEq] at h
-      exact ⟨lq, lr, hq, hr, h.symm⟩
-
-/-- the nested loops of `for_each_flattened_with_t` over a chain of quadratics -/
-theorem cubic_flat_structure (c : Cubic K) (tol : K) (qs : List (Quad K × K × K)) (t tFrom : K)
-    (hq : QuadChain c t qs) (hne : qs ≠ []) (hl1 : lastR1 t qs = one)
-    (l : List (FlatSeg K)) (h : Cubic.flatQuadsT tol qs tFrom = some l) :
-    l ≠ [] ∧ Chain (c.sample t) tFrom l ∧ lastPt (c.sample t) l = c.sample one ∧ lastT tFrom l = one := by
-  induction qs generalizing t tFrom l with
-  | nil => exact absurd rfl hne
-  | cons x rest ih =>
-    obtain ⟨q, r0, r1⟩ := x
-    obtain ⟨h0, hqa, hqb, hrest⟩ := hq
-    subst h0
-    obtain ⟨lq, lr, hf, hr, rfl⟩ := flatQuadsT_cons tol q r0 r1 rest tFrom l h
-    obtain ⟨lne, lch, llast⟩ := quad_flat_connected q tol lq hf
-    have lt := (quad_flat_ranges q tol lq hf).2
-    obtain ⟨g1, g2, g3, g4, g5⟩ := rerange_structure r0 (r1 - r0) (r1 == one) lq q.a zero tFrom lch
-    have gne : (Cubic.rerange r0 (r1 - r0) (r1 == one) lq tFrom).1 ≠ [] := fun hh => lne (g4.mp hh)
-    rw [llast] at g2
-    rw [hqa] at g1 g2
-    rw [hqb] at g2
-    cases rest with
-    | nil =>
-      have hlr : lr = [] := by
-        unfold Cubic.flatQuadsT at hr
-        exact (Option.some.inj hr).symm
-      subst hlr
-      have hr1 : r1 = one := hl1
-      subst hr1
-      rw [List.append_nil]
-      exact ⟨gne, g1, g2, by rw [g3]; exact g5 one_beq_one lne lt⟩
-    | cons y rest' =>
-      obtain ⟨m1, m2, m3, m4⟩ := ih r1 _ hrest (by simp) hl1 lr hr
-      refine ⟨fun hh => gne (List.append_eq_nil_iff.mp hh).1, chain_append g1 ?_, ?_, ?_⟩
-      · rw [g2, g3]; exact m2
-      · rw [lastPt_append, g2]; exact m3
-      · rw [lastT_append, g3]; exact m4
 
 /-- **flat_connected / flat_ranges (cubic, callback with t)**: the segments start exactly at
 `from`, are chained in points and parameters, end exactly at `to` with parameter exactly 1 —
@@ -371,87 +206,20 @@ theorem cubic_flat_connected (c : Cubic K) (tol : K) (l : List (FlatSeg K))
   rw [o] at r4
   exact ⟨r1, r2, r3, r4⟩
 
-/-- **cubic_iter_point_is_sample**: whenever the inner parameter iterator yields `t`, the cubic
-iterator yields `curve.sample(range_start + t·range_step)` — including the final `t = 1` of the
-final sub-curve. It never returns the stored end point. -/
-theorem cubic_iter_point_is_sample (s : CubicIter K) (t : K) (cur : QuadTIter K)
-    (h : s.current.next = (some t, cur)) :
-    s.next.1 = some (s.curve.sample (s.rangeStart + t * s.rangeStep)) := by
-  simp [CubicIter.next, h]
-
-/-- **cubic_iter_last_point_partial**: in exact arithmetic the final parameter
-`(n−1)·(1/n) + 1·(1/n)` is 1 and the point is `to`. (Partial: the property demands the end point
-exactly; in `f32`/`f64` the sum is not 1 for about half of all curves — known finding
-`cubic-iter-last-point`; the proposed fix returns `curve.to` for the final point.) -/
-theorem cubic_iter_last_point_partial (c : Cubic K) (n : K) (hn : n ≠ 0) :
-    c.sample ((n - 1) * (1 / n) + 1 * (1 / n)) = c.b := by
-  have : (n - 1) * (1 / n) + 1 * (1 / n) = 1 := by field_simp; ring
-  rw [this, cubic_sample_one]
-
-example : (3:ℚ) ≠ 0 := by norm_num
-
-end cubic
-
-/-! ### Arc: vertices lie on the arc at their parameter (sin/cos arbitrary functions) -/
-
-section arc
-variable [Transc K] [FlatConst K]
-
-/-- invariant of the arc loop: the remaining arc is the original one from parameter `t0` on -/
-def ArcInv (a iter : Arc K) (t0 : K) : Prop :=
-  iter.center = a.center ∧ iter.radii = a.radii ∧ iter.xrot = a.xrot
-  ∧ iter.start = a.start + a.sweep * t0 ∧ iter.sweep = a.sweep * (1 - t0)
-
-theorem arc_inv_step (a iter : Arc K) (t0 step : K) (h : ArcInv a iter t0) :
-    ArcInv a (iter.afterSplit step) (t0 + step * (one - t0))
-    ∧ (iter.afterSplit step).fromPt = a.sample (t0 + step * (one - t0)) := by
-  obtain ⟨h1, h2, h3, h4, h5⟩ := h
-  have o : (one : K) = 1 := sc_one
-  have z : (zero : K) = 0 := sc_zero
-  refine ⟨⟨h1, h2, h3, ?_, ?_⟩, ?_⟩
-  · simp only [Arc.afterSplit, h4, h5, o]; ring
-  · simp only [Arc.afterSplit, h4, h5, o]; ring
-  · simp only [Arc.fromPt, Arc.sample, Arc.afterSplit, Arc.getAngle, h1, h2, h3, h4, h5, o, z]
-    congr 2; ring
+/-- the quadratics of `for_each_quadratic_bezier_with_t` tile [0,1]: each runs from `sample t0`
+to `sample t1`, consecutive ones share parameter and point, the last ends at parameter 1 -/
+theorem cubic_quads_tile (c : Cubic K) (step : K) (n : Nat) :
+    QuadChain c zero (c.quadsLoop step n zero) ∧ lastR1 zero (c.quadsLoop step n zero) = one
+    ∧ (c.quadsLoop step n zero).length = n + 1 :=
+  cubic_quads_structure c step n zero
 
 /-- **flat_vertices_on_curve (arc)**: every interior vertex is `sample` of its parameter. -/
-theorem arc_loop_vertices (a : Arc K) (tol : K) (f : Nat) (iter : Arc K) (t0 : K) (frm : P K)
-    (h : ArcInv a iter t0) : InteriorOn a.sample (a.flatLoop tol f iter t0 frm) := by
-  induction f generalizing iter t0 frm with
-  | zero => simp [Arc.flatLoop, InteriorOn]
-  | succ f ih =>
-    unfold Arc.flatLoop
-    by_cases hs : one ≤ iter.flatteningStep tol
-    · rw [if_pos hs]; trivial
-    · simp only [hs, if_false]
-      obtain ⟨hi, hp⟩ := arc_inv_step a iter t0 (iter.flatteningStep tol) h
-      have := ih (iter.afterSplit (iter.flatteningStep tol)) _ (iter.afterSplit (iter.flatteningStep tol)).fromPt hi
-      obtain ⟨_, _, _, hne⟩ := arc_loop_structure a tol f (iter.afterSplit (iter.flatteningStep tol))
-        (t0 + iter.flatteningStep tol * (one - t0)) (iter.afterSplit (iter.flatteningStep tol)).fromPt
-      cases hl : a.flatLoop tol f (iter.afterSplit (iter.flatteningStep tol))
-          (t0 + iter.flatteningStep tol * (one - t0)) (iter.afterSplit (iter.flatteningStep tol)).fromPt with
-      | nil => exact absurd hl hne
-      | cons s r =>
-        rw [hl] at this
-        exact ⟨hp, this⟩
-
 theorem arc_flat_vertices_on_curve (a : Arc K) (tol : K) (fuel : Nat) :
     InteriorOn a.sample (a.forEachFlattenedWithT tol fuel) := by
   apply arc_loop_vertices
   refine ⟨rfl, rfl, rfl, ?_, ?_⟩ <;> simp [sc_zero]
 
-/-- **arc_iter_last_point_partial**: under the loop invariant the remaining arc's `to()` is the
-original arc's `to()` — in exact arithmetic. (Partial: in floats `start_k + sweep_k` is not
-`start + sweep`; known finding `arc-iter-last-point`.) -/
-theorem arc_iter_last_point_partial (a iter : Arc K) (t0 : K) (h : ArcInv a iter t0) :
-    iter.toPt = a.toPt := by
-  obtain ⟨h1, h2, h3, h4, h5⟩ := h
-  simp only [Arc.toPt, Arc.sample, Arc.getAngle, h1, h2, h3, h4, h5, sc_one]
-  congr 2; ring
-
-example (a : Arc ℚ) [Transc ℚ] : ArcInv a a 0 := ⟨rfl, rfl, rfl, by ring, by ring⟩
-
-end arc
+end cubic
 
 /-! ### Parameters strictly increase (exact arithmetic; `sqrt` a parameter) -/
 
@@ -568,57 +336,124 @@ theorem tAt_count (p : FlatParams K) (i1 : K)
 
 end mono
 
-/-! ### The tolerance clause is false of model and code: `is_linear` -/
+/-! ### The tolerance clause -/
 
-/-- **is_linear_unsound_witness**: `from (0,0) ctrl (1000,0) to (1/100,0)`, tolerance `1/10`:
-`is_linear` holds (the control point is ON the baseline's line), so whatever the libm functions
-are the parameters say "count 0" and exactly one segment `from → to` is emitted — while the curve
-point at `t = 1/2` is `(500 + 1/400, 0)`, more than 4999 tolerances beyond the segment's far end. -/
-theorem is_linear_unsound_witness :
+section tolerance
+variable [Transc K] [FlatConst K]
+
+/-- **is_linear_sound** (repair 014eb9a5): if `is_linear` accepts, every point `Q(t)`, `t ∈ [0,1]`,
+of the curve is within `tolerance` of the baseline segment — the single segment that is then
+emitted. Hull argument: with `p` the baseline point closest to the control point and
+`S = (1−t)²·from + 2t(1−t)·p + t²·to` (a point of the segment),
+`Q(t) − S = 2t(1−t)·(ctrl − p)` and `|ctrl − p| ≤ 2·tolerance`, `2t(1−t) ≤ ½`.
+
+Former statement here: `is_linear_unsound_witness` (from (0,0) ctrl (1000,0) to (1/100,0),
+tolerance 1/10: `is_linear` held, one segment, curve at x = 500.0025) — true of the code before
+014eb9a5, no longer true of the model; its residue is `collinear_overshoot_witness` below. -/
+theorem is_linear_sound (q : Quad K) (tol t : K) (h : q.isLinear tol = true) (ht0 : 0 ≤ t) (ht1 : t ≤ 1) :
+    ∃ s, 0 ≤ s ∧ s ≤ 1 ∧ (q.sample t - q.a.lerp q.b s).sqLen ≤ tol * tol := by
+  have h := of_decide_eq_true h
+  simp only [segSqDist, segClosestPoint] at h
+  set u : K := Scalar.min (Scalar.max ((q.c - q.a).dot (q.b - q.a) / (q.b - q.a).dot (q.b - q.a)) zero) one with hu
+  have hu0 : 0 ≤ u := by
+    simp only [hu, sc_min, sc_max, sc_zero, sc_one]
+    exact le_min (le_max_right _ _) zero_le_one
+  have hu1 : u ≤ 1 := by
+    simp only [hu, sc_min, sc_one]
+    exact min_le_right _ _
+  have hw0 : 0 ≤ t * (1 - t) := mul_nonneg ht0 (by linarith)
+  have hw1 : t * (1 - t) ≤ 1 / 4 := chord_factor t
+  refine ⟨2 * (t * (1 - t)) * u + t * t, ?_, ?_, ?_⟩
+  · have := mul_nonneg (mul_nonneg (by norm_num : (0:K) ≤ 2) hw0) hu0
+    nlinarith [mul_self_nonneg t]
+  · have h1 : 2 * (t * (1 - t)) * u ≤ 2 * (t * (1 - t)) := by
+      have := mul_le_mul_of_nonneg_left hu1 (mul_nonneg (by norm_num : (0:K) ≤ 2) hw0)
+      linarith
+    nlinarith [mul_self_nonneg (1 - t)]
+  · -- the squared distance is (2t(1−t))² · |closest − ctrl|²
+    have hD : (q.a + (q.b - q.a).smul u - q.c).sqLen ≤ tol * tol * 4 := by
+      have e4 : (four : K) = 4 := sc_four
+      rw [← e4]; exact h
+    have e : (q.sample t - q.a.lerp q.b (2 * (t * (1 - t)) * u + t * t)).sqLen
+        = (2 * (t * (1 - t))) ^ 2 * (q.a + (q.b - q.a).smul u - q.c).sqLen := by
+      simp only [geom, Nat.cast_ofNat, Nat.cast_one]
+      ring
+    rw [e]
+    have hD0 : 0 ≤ (q.a + (q.b - q.a).smul u - q.c).sqLen := by
+      simp only [P.sqLen]; nlinarith [mul_self_nonneg (q.a + (q.b - q.a).smul u - q.c).x, mul_self_nonneg (q.a + (q.b - q.a).smul u - q.c).y]
+    have hw2 : (2 * (t * (1 - t))) ^ 2 ≤ 1 / 4 := by nlinarith
+    have hw3 : 0 ≤ (2 * (t * (1 - t))) ^ 2 := sq_nonneg _
+    nlinarith [mul_le_mul hw2 hD hD0 (by norm_num : (0:K) ≤ 1 / 4)]
+
+/-- non-vacuity of `is_linear_sound`: a quadratic the repaired `is_linear` accepts -/
+example : (⟨⟨0, 0⟩, ⟨1, 1 / 8⟩, ⟨2, 0⟩⟩ : Quad ℚ).isLinear (1 / 10) = true := by
+  simp only [Quad.isLinear, segSqDist, segClosestPoint, geom, decide_eq_true_eq]
+  norm_num
+
+/-- **quad_flat_within_tolerance_of_params**: for every emitted segment `[t0,t1]` of a quadratic's
+flattening whose parameter step satisfies `(t1−t0)⁴·|P0−2P1+P2|² ≤ 16·tol²`, every curve point
+over that range is within `tol` of the emitted segment (at the same relative position `s`).
+The emitted segment's end points are exactly `Q(t0)`, `Q(t1)` (`quad_flat_ends_on`), the deviation
+is exactly `−s(1−s)Δ²·(P0−2P1+P2)` (`chord_deviation`) and `s(1−s) ≤ ¼`.
+Named gap: that the steps chosen through Levien's integral estimate satisfy the bound. -/
+theorem quad_flat_within_tolerance_of_params (q : Quad K) (tol : K) (l : List (FlatSeg K))
+    (h : q.forEachFlattenedWithT tol = some l) (sg : FlatSeg K) (hs : sg ∈ l)
+    (hstep : (sg.t1 - sg.t0) ^ 4 * ((q.a - q.c.smul 2) + q.b).sqLen ≤ 16 * (tol * tol))
+    (s : K) (hs0 : 0 ≤ s) (hs1 : s ≤ 1) :
+    (q.sample (sg.t0 + s * (sg.t1 - sg.t0)) - sg.a.lerp sg.b s).sqLen ≤ tol * tol := by
+  obtain ⟨ha, hb⟩ := quad_flat_ends_on q tol l h sg hs
+  have hb' : sg.b = q.sample (sg.t0 + (sg.t1 - sg.t0)) := by rw [hb]; congr 1; ring
+  rw [ha, hb', chord_deviation]
+  have e : (((q.a - q.c.smul 2) + q.b).smul (-(s * (1 - s) * ((sg.t1 - sg.t0) * (sg.t1 - sg.t0))))).sqLen
+      = (s * (1 - s)) ^ 2 * ((sg.t1 - sg.t0) ^ 4 * ((q.a - q.c.smul 2) + q.b).sqLen) := by
+    simp only [geom]; ring
+  rw [e]
+  have hw0 : 0 ≤ s * (1 - s) := mul_nonneg hs0 (by linarith)
+  have hw1 : s * (1 - s) ≤ 1 / 4 := chord_factor s
+  have hw2 : (s * (1 - s)) ^ 2 ≤ 1 / 16 := by nlinarith
+  have hE0 : 0 ≤ (sg.t1 - sg.t0) ^ 4 * ((q.a - q.c.smul 2) + q.b).sqLen := by
+    apply mul_nonneg (by positivity)
+    simp only [P.sqLen]; nlinarith [mul_self_nonneg ((q.a - q.c.smul 2) + q.b).x, mul_self_nonneg ((q.a - q.c.smul 2) + q.b).y]
+  nlinarith [mul_le_mul hw2 hstep hE0 (by norm_num : (0:K) ≤ 1 / 16)]
+
+/-- non-vacuity of the step hypothesis: parameter step 1/4 on `from (0,0) ctrl (1,1) to (2,0)`
+(`|P0−2P1+P2|² = 4`) with tolerance 1/10: `(1/4)⁴·4 = 1/64 ≤ 16/100` -/
+example : ((1:ℚ) / 4) ^ 4 * 4 ≤ 16 * (1 / 10 * (1 / 10)) := by norm_num
+
+/-- **collinear_overshoot_witness** (residual defect after 014eb9a5 + 3251fd3d; narrow: control
+points exactly collinear, control point outside the baseline — includes every `from == to`):
+`from (0,0) ctrl (1000,0) to (1/100,0)`, tolerance `1/10`. `is_linear` now rejects, but
+`cross = 0`, the code's parameters are NaN and the count falls back to 0 (explicit branch of
+`FlatParams.general`): exactly one segment `from → to` is emitted, while the curve point at
+`t = 1/2` is `(500 + 1/400, 0)`, more than 4999 tolerances beyond the segment's far end. -/
+theorem collinear_overshoot_witness :
     let q : Quad ℚ := ⟨⟨0, 0⟩, ⟨1000, 0⟩, ⟨1 / 100, 0⟩⟩
-    q.isLinear (1 / 10) = true
+    q.isLinear (1 / 10) = false
     ∧ (∀ (T : Transc ℚ) (F : FlatConst ℚ), (FlatParams.new q (1 / 10)).count = 0)
     ∧ (∀ (T : Transc ℚ) (F : FlatConst ℚ) (p : FlatParams ℚ), q.flatWith p 0 = [⟨q.a, q.b, zero, one⟩])
     ∧ q.sample (1 / 2) = ⟨500 + 1 / 400, 0⟩
     ∧ (500 + 1 / 400 : ℚ) - 1 / 100 > 4999 * (1 / 10) := by
-  have hlin : (⟨⟨0, 0⟩, ⟨1000, 0⟩, ⟨1 / 100, 0⟩⟩ : Quad ℚ).isLinear (1 / 10) = true := by
-    simp only [Quad.isLinear, lineSqDist, P.cross, P.sqLen, P.sub_def, geom]
-    norm_num [P.beq, BEq.beq]
+  have hlin : (⟨⟨0, 0⟩, ⟨1000, 0⟩, ⟨1 / 100, 0⟩⟩ : Quad ℚ).isLinear (1 / 10) = false := by
+    simp only [Quad.isLinear, segSqDist, segClosestPoint, geom, decide_eq_false_iff_not]
+    norm_num
+  have hcross : FlatParams.flatCross (⟨⟨0, 0⟩, ⟨1000, 0⟩, ⟨1 / 100, 0⟩⟩ : Quad ℚ) = 0 := by
+    simp only [FlatParams.flatCross, geom]; norm_num
   refine ⟨hlin, ?_, ?_, ?_, by norm_num⟩
   · intro T F
-    simp only [FlatParams.new, hlin, if_true, FlatParams.linear, sc_zero]
+    have hb : (FlatParams.flatCross (⟨⟨0, 0⟩, ⟨1000, 0⟩, ⟨1 / 100, 0⟩⟩ : Quad ℚ) == (0:ℚ)) = true :=
+      (sc_beq _ _).mpr hcross
+    simp only [FlatParams.new, hlin, FlatParams.general, hb, if_true, FlatParams.linear, sc_zero,
+      Bool.false_eq_true, if_false]
   · intro T F p
     simp [Quad.flatWith, Quad.flatLoop]
   · apply P.ext' <;> simp only [geom] <;> norm_num
 
-/-- a toy instance of the non-field functions, used only to show that the hypothesis
-`… = some l` of the structural theorems is satisfiable on a concrete curve -/
-@[instance_reducible] def toyTransc : Transc ℚ :=
-  { sqrt := fun x => Max.max x 0, cbrt := id, sin := id, cos := id, tan := id, acos := id,
-    atan2 := fun a _ => a, pow := fun a _ => a, log2 := id, ln := id, floor := id, ceil := id,
-    toNat := fun _ => 0, fmod := fun a _ => a, eps := 0, pi := 3, isNaN := fun _ => false,
-    isFinite := fun _ => true }
-@[instance_reducible] def toyConst : FlatConst ℚ := ⟨1 / 10000, fun m e => (m : ℚ) / 10 ^ e, (67 / 100) ^ 4⟩
-
-example : ∃ l, @Quad.forEachFlattenedWithT ℚ _ toyTransc toyConst ⟨⟨0, 0⟩, ⟨1000, 0⟩, ⟨1 / 100, 0⟩⟩ (1 / 10) = some l := by
-  refine ⟨[⟨⟨0, 0⟩, ⟨1 / 100, 0⟩, zero, one⟩], ?_⟩
-  have hlin := is_linear_unsound_witness.1
-  have hc := is_linear_unsound_witness.2.1 toyTransc toyConst
-  simp only [Quad.forEachFlattenedWithT, toU32, hc]
-  norm_num [toyTransc, Quad.flatWith, ofNat_eq]
-  have h0 : @Transc.toNat ℚ toyTransc 0 - 1 = 0 := rfl
-  rw [h0]
-  simp [Quad.flatLoop]
-
-/-- **is_linear_sound_partial**: when `is_linear` holds through its distance test AND the
-quadratic's control point lies on the baseline segment's side of things such that the chord in
-question is the whole curve, the single chord's parametric deviation is at most
-`|P0 − 2P1 + P2|/4` (`chord_deviation` at `t0 = 0`, `Δ = 1`) — i.e. half the distance of the
-control point from the chord's midpoint. This is `≤ tolerance` when the control point is within
-`2·tolerance` of the *midpoint region* of the baseline, not merely of its supporting line: the
-property's tolerance clause holds only under that extra hypothesis. (Partial: the hypothesis
-`is_linear` checks — distance to the infinite line — does not imply it; see the witness.) -/
-theorem is_linear_sound_partial (q : Quad K) (s : K) :
+/-- **collinear_overshoot_partial**: what IS true in the residual case — the structural clauses
+(`quad_flat_connected`, `quad_flat_ranges`: one segment `from → to`, range `0..1`), and the
+tolerance clause exactly when the control point lies within `2·tolerance` of the baseline
+segment (`is_linear_sound`); with `cross = 0` and the control point further out, the emitted
+segment misses the curve by `|P0 − 2P1 + P2|/4` at `t = ½` (`chord_deviation` at `t0 = 0, Δ = 1`): -/
+theorem collinear_overshoot_partial (q : Quad K) (s : K) :
     q.sample s - q.a.lerp q.b s = ((q.a - q.c.smul 2) + q.b).smul (-(s * (1 - s))) := by
   have h := chord_deviation q 0 1 s
   have e0 : q.sample 0 = q.a := quad_sample_zero q
@@ -627,5 +462,18 @@ theorem is_linear_sound_partial (q : Quad K) (s : K) :
   have e2 : (0:K) + s * 1 = s := by ring
   rw [e2] at h
   rw [h]; congr 2; ring
+
+/-- the hypothesis `… = some l` of the structural theorems is satisfiable on a concrete curve
+(toy instances of the non-field functions) -/
+example : ∃ l, @Quad.forEachFlattenedWithT ℚ _ toyTransc toyConst ⟨⟨0, 0⟩, ⟨1000, 0⟩, ⟨1 / 100, 0⟩⟩ (1 / 10) = some l := by
+  refine ⟨[⟨⟨0, 0⟩, ⟨1 / 100, 0⟩, zero, one⟩], ?_⟩
+  have hc := collinear_overshoot_witness.2.1 toyTransc toyConst
+  simp only [Quad.forEachFlattenedWithT, toU32, hc]
+  norm_num [toyTransc, Quad.flatWith, ofNat_eq]
+  have h0 : @Transc.toNat ℚ toyTransc 0 - 1 = 0 := rfl
+  rw [h0]
+  simp [Quad.flatLoop]
+
+end tolerance
 
 end Lyon.C09
